@@ -21,6 +21,10 @@ claimed = {
    text="Deductive proof of the state-machine slice: the ShapeIndex bookkeeping invariant SI (ids below nextID present, none above, pendingAdditionsPos <= nextID, fresh => nothing pending, lock free) is established by NewShapeIndex and preserved by Add, Reset, Build, Iterator, Begin, End, maybeApplyUpdates and applyUpdatesInternal from every SI-state, so it holds after every finite sequence of these operations (induction over histories, no bound); the update path never re-enters the index lock (mutex word modelled in memory, Lock requires it free); Loop.Invert re-establishes 'index holds exactly this loop, pending from 0'; every polygon constructor path through initEdgesAndIndex yields a non-nil index; EdgeQuery.FindEdges/Distance/IsDistanceLess/IsDistanceGreater/IsConservative* leave the options pointer and the pointed-to options bit-identical (frame). Equality of float answers across histories beyond these invariants, Remove, and the bodies of the clipping recursion are not decided.",
    note=TRUST+"Assumed contracts: removeShapeInternal, addShapeInternal, updateFaceEdges (bodies outside the subset), findEdgesInternal, sortAndUniqueResults, NewShapeIndexIterator, LocateCellID, PaddedCell.ShrinkToFit, Loop.initBound; unreachability of tracker.lowerBound rests on updateFaceEdges passing disjointFromIndex=isFirstUpdate() (body not verified).",
    design="3 C13"),
+ 'C16': dict(
+   text="Deductive proof of the order-independence slice (exact IEEE comparisons, all non-NaN points): compareEdges is independent of the direction of either edge and never orders two edges both ways; intersectionStable evaluates its numerical core on the same argument tuple whichever way the two edges are passed (core as an uninterpreted deterministic function), hence is bit-identical under swapping the edges; thorough tier: the exact fallback returns the same point under swapping the edges in the collinear case (minimum over the qualifying endpoints; exact cross products and OrderedCCW as uninterpreted deterministic functions). The 8*2^-53 accuracy bound, unit length, and bit-identity of the numerical core under reversing one edge are numerical and NOT decided.",
+   note=TRUST+"Assumed (used as deterministic uninterpreted functions): r3.PreciseVector operations, OrderedCCW, intersectionStableSorted. Unverified remainder: accuracy, hemisphere choice, reversal of a single edge inside the numerical core.",
+   design="3 C16"),
  'C19': dict(
    text="Deductive proof in the SMT floating-point theory (exact IEEE-754 semantics, every bit pattern of operands and of a universally quantified probe point; no real-number idealisation) that the interval and rectangle algebra is sound w.r.t. point membership: r1.Interval, s1.Interval (incl. empty, full, inverted/wrapping intervals and both representations of +-pi), r2.Rect and the lat-lng s2.Rect: union contains every point of both operands, intersection contains every common point and (s1/s2) no point of neither / (r1/r2) exactly the common points, ContainsInterval/Contains and Intersects agree with point membership (with endpoint witnesses), AddPoint keeps old points and contains the new one, Complement covers, Project/ClampPoint land inside, results are valid. s1.Interval.Expanded (math.Remainder) is thorough-tier only; Cap algebra and ChordAngle arithmetic (sqrt, products) are NOT decided.",
    note=TRUST+"Standing assumptions: math.Max/Min/Abs/Remainder modelled by their IEEE/Go definitions; package-level rectangle constants keep their initial values. Unverified remainder: Cap (Contains/Union/AddCap/Expanded/Complement), ChordAngle Add/Sub, Rect.expanded, CapBound.",
